@@ -50,6 +50,12 @@ pub fn run(ctx: &Ctx) -> i32 {
             if !big {
                 let g = GEOMS[1 + case.index % (GEOMS.len() - 1)];
                 fronts.push(Front::RawGeom(g.0, g.1));
+                if case.family == "duplicated-wide-fans" || case.family == "cache-digest-collision" {
+                    // what these families probe happens inside the node cache: every hook geometry
+                    for &(r, c) in GEOMS.iter().skip(1) {
+                        fronts.push(Front::RawGeom(r, c));
+                    }
+                }
                 if !exhaustive || case.index % 4 == 0 {
                     fronts.push(MAP_FRONTS[case.index % MAP_FRONTS.len()]);
                     if case.set {
